@@ -2,6 +2,10 @@
 """Regenerates seeded/SUMMARY.md from seeded/*/meta.json."""
 import glob, json, os
 rows = []
+try:
+    first = json.load(open('/verif/seeded/first_pass.json'))
+except Exception:
+    first = {}
 for f in sorted(glob.glob('/verif/seeded/*/meta.json')):
     m = json.load(open(f))
     c = m.get('confirmed', {})
@@ -17,11 +21,14 @@ for f in sorted(glob.glob('/verif/seeded/*/meta.json')):
             break
     rows.append((name, m.get('property'), (m.get('summary') or '')[:160].replace('|', '/'), (m.get('needs') or '')[:120].replace('|', '/'),
                  'yes' if c.get('demo_fails_with_patch') and c.get('demo_passes_without_patch') else 'NO',
-                 c.get('existing_tests', '?'), ', '.join(caught) if caught else 'MISSED', det))
+                 c.get('existing_tests', 'n/a (no tests in the touched package)'), ', '.join(caught) if caught else 'MISSED',
+                 ('caught' if first.get(name) else 'missed, check strengthened') if name in first else '', det))
 with open('/verif/seeded/SUMMARY.md', 'w') as w:
     w.write('# Independently seeded changes\n\n')
     w.write('%d changes; caught by the quick tier: %d; missed: %d\n\n' % (len(rows), sum(1 for r in rows if r[6] != 'MISSED'), sum(1 for r in rows if r[6] == 'MISSED')))
-    w.write('| id | property | change | needs | demo confirmed | repo tests | caught by | first detection |\n|---|---|---|---|---|---|---|---|\n')
+    w.write('| id | property | change | needs | demo confirmed | repo tests | caught by (now) | first pass | first detection |\n|---|---|---|---|---|---|---|---|---|\n')
     for r in rows:
         w.write('| ' + ' | '.join(str(x) for x in r) + ' |\n')
+    w.write('\n"first pass" = result of the quick tier as it stood when the change was first evaluated (seeded/first_pass.json); '
+            '"caught by (now)" = result after the checks were strengthened.\n')
 print(len(rows), 'rows')
